@@ -27,6 +27,7 @@ pub struct Runner {
     pub wellformed_checked: u64,
     pub oracle_checks: u64,
     pub policy_limit: Option<u64>,
+    pub extra: String,
 }
 
 fn fnv(sig: &[(u8, u16)]) -> u64 {
@@ -62,6 +63,7 @@ impl Runner {
             wellformed_checked: 0,
             oracle_checks: 0,
             policy_limit: None,
+            extra: String::new(),
         }
     }
 
@@ -120,6 +122,16 @@ impl Runner {
                 self.sut.reset_codec();
                 "ok".to_string()
             }
+            ["conn"] => {
+                self.sut.open_conn();
+                "ok".to_string()
+            }
+            ["chunk", hx] => {
+                let b = wire::unhex(hx).unwrap();
+                self.sut.chunk(&b)
+            }
+            ["eof"] => self.sut.eof(),
+            ["fin"] => self.sut.fin(),
             _ => "bad-op".to_string(),
         };
         self.ops.push(line.to_string());
@@ -341,7 +353,7 @@ impl Runner {
         std::fs::write(format!("{}/oracle.txt", dir), o).unwrap();
         let hist = |m: &BTreeMap<String, u64>| m.iter().map(|(k, v)| format!("\"{}\":{}", k, v)).collect::<Vec<_>>().join(",");
         let stats = format!(
-            "{{\"suite\":\"{}\",\"profile\":\"{}\",\"seed\":{},\"programs\":{},\"lines\":{},\"requests\":{},\"distinct_nontrivial\":{},\"oracle_checks\":{},\"wellformed_checked\":{},\"opcodes\":{{{}}},\"outcomes\":{{{}}},\"oracle_violations\":{}}}\n",
+            "{{\"suite\":\"{}\",\"profile\":\"{}\",\"seed\":{},\"programs\":{},\"lines\":{},\"requests\":{},\"distinct_nontrivial\":{},\"oracle_checks\":{},\"wellformed_checked\":{},\"opcodes\":{{{}}},\"outcomes\":{{{}}},\"oracle_violations\":{}{}}}\n",
             suite,
             profile,
             seed,
@@ -353,7 +365,8 @@ impl Runner {
             self.wellformed_checked,
             hist(&self.op_hist),
             hist(&self.status_hist),
-            self.violations.len()
+            self.violations.len(),
+            self.extra
         );
         std::fs::write(format!("{}/stats.json", dir), stats).unwrap();
     }
